@@ -190,13 +190,13 @@ Definition yoke_kw (c : wctx) (k : yoke) : item :=
   | YSindir => kw c "SINDIR" 2
   end.
 
-Definition lincom_items (c : wctx) (comp : bool) (terms : list (bstring * sval cplx * sval cplx)) : list item :=
-  let fix go (l : list (bstring * sval cplx * sval cplx)) : list item :=
-    match l with
-    | [] => []
-    | [(i, m, b)] => [(in_word c i, sp); (num_word c comp m, sp); (num_word c comp b, nl)]
-    | (i, m, b) :: r => (in_word c i, sp) :: (num_word c comp m, sp) :: (num_word c comp b, sp) :: go r
-    end in go terms.
+Fixpoint lincom_items (c : wctx) (comp : bool) (l : list (bstring * sval cplx * sval cplx)) : list item :=
+  match l with
+  | [] => []
+  | (i, m, b) :: r =>
+      (in_word c i, sp) :: (num_word c comp m, sp) ::
+      (num_word c comp b, match r with [] => nl | _ => sp end) :: lincom_items c comp r
+  end.
 
 Definition entry_items (c : wctx) (e : entry) : list item :=
   let nm := entry_name e in
